@@ -107,6 +107,20 @@ def verify_one(args):
         out["vacuity_requires"] = vac
         if vac == "unsat":
             out["error"] = "VACUOUS: the requires clause (with axioms) is unsatisfiable"
+        # ... and the assumptions accumulated along the way (ghost assumes, callee posts, axioms) must leave some returning path feasible:
+        # an inconsistent set of assumptions would discharge everything after it. Probe the returning paths until one is not refuted.
+        rets = sorted(info.get("return_pcs", []), key=len, reverse=True)
+        if rets and vac != "unsat":
+            t1 = time.time()
+            verdicts = []
+            for pc in rets[:4]:
+                verdicts.append(satisfiable(pc, timeout=2))
+                if verdicts[-1] != "unsat":
+                    break
+            out["vacuity_paths"] = verdicts
+            out["vacuity_wall_s"] = round(time.time() - t1, 2)
+            if all(v == "unsat" for v in verdicts) and len(verdicts) == min(4, len(rets)):
+                out["error"] = "VACUOUS: every probed returning path has contradictory assumptions (ghost assume / callee post / axiom)"
         ver = engine_version()
         from concurrent.futures import ThreadPoolExecutor
         from pyvc.solve import check_smt2, to_smt2
